@@ -2,7 +2,7 @@
 # run the repository's stable baseline (guard off: there are no hooks) and compare with BASELINE.json
 OUT=${1:-/tmp/bl/junit.xml}
 mkdir -p "$(dirname "$OUT")"
-cd /repo && /venv/bin/python -m pytest -ra -q -p no:cacheprovider --timeout=900 --continue-on-collection-errors --junitxml="$OUT" > "$OUT.log" 2>&1
+cd ${REPO:-/repo} && /venv/bin/python -m pytest -ra -q -p no:cacheprovider --timeout=900 --continue-on-collection-errors --junitxml="$OUT" > "$OUT.log" 2>&1
 /venv/bin/python - "$OUT" <<'PY'
 import json, sys, xml.etree.ElementTree as ET
 base = set(json.load(open('/root/.vp/BASELINE.json'))['stable_pass'])
